@@ -25,7 +25,11 @@ RULE = ("family hom/array: every side 0-4 x 5 array kinds (random, symmetric, an
         "family hom/history: scripts of ~30 setup-level calls (hom_rate_series / hom_visibility) per round: one setup and grid with eight integrator "
         "variants back to back (Simpson 50/6/n, GaussLegendre 40/4/n, AdaptiveSimpson, ClenshawCurtis) in fixed then random order with repeats, two "
         "setups alternating on one grid, one setup on two grids; each call vs the array-level function on amplitudes sampled by the harness with "
-        "that call's integrator, repeated calls vs their first result")
+        "that call's integrator, repeated calls vs their first result; structured delay lists (dip scans with coarse wings and a fine centre, "
+        "palindromic gaps, equal first/last gap around an irregular interior, even scans up/down, one displaced point, coarse-fine-coarse, geometric, "
+        "repeated values, singles, pairs, unordered) for the array-level series on random / unrelated / Gaussian arrays and for SPDC::hom_rate_series "
+        "(every entry vs hom_rate at that delay); setup-level calls also on windows whose axes share only the first or only the last frequency, "
+        "have equal ends but different counts, run in opposite order, are shifted by one step, are unrelated, or reach above the pump frequency")
 RESIDUAL = ("Riemann-sum-to-integral step of the Gaussian clause is numeric only; floating-point rounding and the order of the parallel "
             "sum are measured by the comparison, not proved")
 CHECKER_MODULES = ["Spdc.Real.HomLemmas"]
@@ -67,7 +71,7 @@ def on_case(op, body, impl_out, model_out):
 
 def families(tier, seed):
     if tier == "quick":
-        return [("hom", seed, 400, ["array"]), ("hom", seed, 40, ["setup"]), ("hom", seed, 4, ["history"])]
+        return [("hom", seed, 400, ["array"]), ("hom", seed, 72, ["setup"]), ("hom", seed, 4, ["history"])]
     return [("hom", seed, 6000, ["array"]), ("hom", seed, 400, ["setup"]), ("hom", seed, 16, ["history"])]
 
 
